@@ -29,6 +29,9 @@ CHECKS = {
  "C14": dict(technique="runtime monitoring: differential oracle (bare handler vs middleware against recording writers), ValidateResponse as the definition of an invalid response, handler-invocation counter, over all handler scripts up to length 4",
    text="All 11111 handler scripts of length<=4 over 10 writer operations x 5 request classes x strict on/off x default/custom callbacks x 4 validation option sets through Validator.Middleware, plus the request gate of ValidationHandler (both entry points, 7 request classes incl. unknown and lower-case methods): handler runs iff routed and valid; strict+invalid => 500 and no handler byte/status at the client; strict+valid => exactly the handler's status and body; non-strict => transcript identical to the bare handler; OnErr arguments as specified; no panic. Exhaustive over the stated finite space.",
    note="Client view = httptest.ResponseRecorder semantics; response headers are outside the statement; in strict mode the handler's status is the first WriteHeader (else 200) because the strict wrapper offers no Flush.", ref="4 C14"),
+ "C09": dict(technique="runtime monitoring: reference-model oracle (independent segment matcher + server URL model) over FindRoute executions of both routers, with a history monitor on previously returned routes",
+   text="For all single/pair (and sampled or all triple) template sets over {a,b,{x},{y}} of <=3 segments x 6 server layouts (none, relative, absolute, two servers, host/base variables, path-item servers) x filled URLs and near misses x GET/POST/DELETE, each FindRoute result of gorillamux and legacy is judged: returned operation is pointer-identical to the declared one, substitution of returned parameters reproduces the path after the base, every fill of a declared template with a declared method is routed, a literal template wins, non-matching URLs give a RouteError, and a route returned earlier is unchanged by later calls.",
+   note="Relative/no servers use server-side style requests (path-only URL, Host header), absolute servers use absolute request URLs; trailing slashes are insignificant for the legacy router (its documented convention); path-item servers are exercised on gorillamux only (the legacy router only knows document servers).", ref="4 C09"),
 }
 NOT_YET = {}
 def main():
